@@ -68,9 +68,16 @@ func RunMutant(m Mutant, repo, verif string) MutantResult {
 		return res
 	}
 	res.Wall = rep.Wall
+	kf := LoadKnownFindings(filepath.Join(verif, "known-findings.jsonl"))
+	var viol []Violation
 	for _, v := range rep.Violations {
+		if kf.Match(m.Prop, v.Obligation) != nil {
+			continue
+		}
+		viol = append(viol, v)
 		res.Failed = append(res.Failed, v.Obligation)
 	}
+	rep.Violations = viol
 	switch m.Expect {
 	case "fail":
 		if len(rep.Violations) == 0 {
